@@ -1,7 +1,7 @@
 """C17 — block sync delivers a gap-free ascending chain from a true common ancestor.
 spec/sync/Syncer.tla; binding: TLC behaviours (every transition of a small instance + simulated behaviours of
 larger ones) replayed message by message on the real syncer.Syncer (harness/syncer)."""
-import json, os, random, re, threading, time
+import json, os, random, re, shutil, threading, time
 from collections import deque
 import vlib
 
@@ -352,8 +352,13 @@ def recv_check(c):
         inpath = os.path.join(c.work, "recv_in_%s.json" % kind)
         json.dump(dict(kind=kind, n=3, paths=paths), open(inpath, "w"))
         outpath = os.path.join(c.work, "recv_out_%s.json" % kind)
+        # the p2p package's own test init() loads ./test/sample/sample.key: run in a scratch copy of that layout
+        rt = os.path.join(c.work, "rt", "p2p")
+        os.makedirs(os.path.join(rt, "test"), exist_ok=True)
+        if not os.path.isdir(os.path.join(rt, "test", "sample")):
+            shutil.copytree(os.path.join(vlib.REPO, "p2p", "test", "sample"), os.path.join(rt, "test", "sample"))
         rc, output = vlib.go_test("./p2p/", "^TestVerifSyncRecv$", env={"VERIF_IN": inpath, "VERIF_OUT": outpath,
-                                  "VERIF_SEED": c.seed, "VERIF_TIER": c.tier}, timeout=1500)
+                                  "VERIF_SEED": c.seed, "VERIF_TIER": c.tier}, timeout=1500, cwd=rt)
         r = c.absorb_go(outpath, output)
         if rc != 0 and not r.get("violations"):
             raise vlib.Infra("receiver harness failed:\n" + output[-3000:])
